@@ -42,6 +42,8 @@ type frameWorld struct {
 	capture  bool
 	stormOver bool
 	resizerDone bool
+	slow      bool // C07: replies late or missing; only soundness is checked
+	sweep     bool // C07: colour sweep
 }
 
 func init() {
@@ -101,6 +103,29 @@ func (w *frameWorld) Build(t *simrt.Tape, spec RunSpec) {
 	if w.prop == "C07" && t.Draw(6) == 0 {
 		w.colorterm = []string{"truecolor", "24bit", "yes"}[t.Draw(3)]
 	}
+	if w.prop == "C07" && t.Draw(4) == 0 {
+		w.slow = true
+		w.storm = false
+		for i := range w.frames {
+			if w.frames[i].End == endResize {
+				w.frames[i].End = endRender
+			}
+		}
+	}
+	if n := optInt(spec.Opts, "colorsweep", 0); n > 0 {
+		// all direct colours: run k of the phase covers colours [k*n, (k+1)*n)
+		k := spec.Index - optInt(spec.Opts, "base", 0)
+		w.sweep, w.slow, w.storm, w.userIn, w.colorterm = true, false, false, false, ""
+		w.rows, w.cols = 64, n/64
+		w.bits &^= capRGB
+		if k%3 == 2 {
+			w.bits |= capStyledUL
+		}
+		w.caps = capsFromBits(w.bits, t)
+		w.caps.RGB = false
+		w.pers = personalityFor(w.caps)
+		w.frames = []frame{sweepFrame(w.rows, w.cols, uint32(k/3*n), k%3)}
+	}
 }
 
 func (w *frameWorld) Start(s *simrt.Sched, res *RunResult) {
@@ -111,6 +136,9 @@ func (w *frameWorld) Start(s *simrt.Sched, res *RunResult) {
 	// is wherever the shell left it
 	w.env.term.R, w.env.term.C = s.Tape.Draw(w.rows), s.Tape.Draw(w.cols)
 	w.env.replyDelay = promptReplies(s)
+	if w.slow {
+		w.env.replyDelay = slowReplies(s, res)
+	}
 	w.env.capture = w.capture
 	w.env.chunkMode = s.Tape.Draw(4)
 	if w.colorterm != "" {
@@ -375,6 +403,11 @@ func (w *frameWorld) check(at string) {
 	if !w.flushInvariants(at) {
 		return
 	}
+	if w.slow {
+		// which capabilities a slow terminal's replies establish depends on
+		// time-outs the harness does not mirror: only soundness is checked
+		return
+	}
 	if w.storm && !w.stormOver {
 		// the size may change under the frame at any moment: only the
 		// frame drawn after the last resize is compared
@@ -386,7 +419,11 @@ func (w *frameWorld) check(at string) {
 		w.res.Violate("not-on-alt-screen", "vaxis", "%s: the frame was drawn on the primary screen", at)
 		return
 	}
-	exp := expectedDisplay(w.m, w.caps, t.CurrentPersonality())
+	ec := w.caps
+	if w.colorterm == "truecolor" || w.colorterm == "24bit" {
+		ec.RGB = true // COLORTERM is the documented way to declare direct colour
+	}
+	exp := expectedDisplay(w.m, ec, t.CurrentPersonality())
 	if d := compareDisplay(t, exp); d != "" {
 		w.res.Violate("display", "vaxis.render", "%s: %s\nterminal: %dx%d %s personality=%d\nhistory: %s", at, d, w.env.term.Rows, w.env.term.Cols, capsString(w.caps), t.CurrentPersonality(), toJSON(frameStrings(w.frames[:w.frameNo+1])))
 		return
